@@ -332,10 +332,10 @@ def run_scenarios(exe, scenarios, jobs=NCPU):
     # machine must not turn into a reported non-termination
     byid = {s_.split()[1]: s_ for s_ in scenarios}
     again = [sid for sid, r in results.items() if r['end'] in ('hang', 'skipped')] + [sid for sid in byid if sid not in results]
-    for sid in again[:12]:
+    for sid in again[:2]:
         if sid not in byid:
             continue
-        res, st, _ = run_chunk(exe, byid[sid] + '\n', alarm=150)
+        res, st, _ = run_chunk(exe, byid[sid] + '\n', alarm=75)
         for line in res:
             r = parse_res(line)
             if r['id'] == sid:
